@@ -2,6 +2,7 @@
 //! oracle, plus the fakes that serve them to the real engine.
 
 pub mod build;
+pub mod history;
 pub mod keys;
 pub mod oracle;
 pub mod run;
